@@ -556,6 +556,17 @@ func injectGen1(r *rand.Rand, idx int, thorough bool) *ijCase {
 			if r.Intn(3) == 0 {
 				ls = append(ls, [2]string{"zone", fmt.Sprintf("z%d", r.Intn(3))})
 			}
+			// reserved labels a relabel rule may have left on the target: a per-target interval / timeout (honoured by the
+			// shard's Prometheus), a scratch label
+			if r.Intn(4) == 0 {
+				ls = append(ls, [2]string{"__scrape_interval__", []string{"15s", "45s"}[r.Intn(2)]})
+			}
+			if r.Intn(4) == 0 {
+				ls = append(ls, [2]string{"__scrape_timeout__", "5s"})
+			}
+			if r.Intn(5) == 0 {
+				ls = append(ls, [2]string{"__tmp_zone", "t"})
+			}
 			r.Shuffle(len(ls), func(a, b int) { ls[a], ls[b] = ls[b], ls[a] })
 			c.Assign[n] = append(c.Assign[n], ijTarget{Hash: h, Labels: ls})
 		}
